@@ -31,7 +31,7 @@ ASSUMPTIONS = [
     "timeouts fire only at quiescent moments (virtual clock)",
     "task exceptions and callback exceptions are Exception subclasses",
 ]
-EXHAUSTIVE = ["all schedules with at most k non-default scheduling choices of the 20 listed micro-programs (quick: k=3 sync / k=2 lines; thorough: k=4 / k=3; a program whose enumeration is truncated by the per-program limit is reported as dfs-program-truncated)"]
+EXHAUSTIVE = ["all schedules with at most k non-default scheduling choices of the 22 listed micro-programs (quick: k=3 sync / k=2 lines; thorough: k=4 / k=3; a program whose enumeration is truncated by the per-program limit is reported as dfs-program-truncated)"]
 
 _tp = [None]
 
@@ -56,7 +56,10 @@ def run_program(prog, chooser, lines=False, policy=()):
     policy = list(policy)
     state = {"gate": None, "objs": {}}
     ret_obj = object()
-    exc_obj = ValueError("task failed")
+    class FalsyFailure(Exception):
+        def __bool__(self):
+            return False
+    exc_obj = FalsyFailure("task failed (falsy)") if prog.get("falsy_exc") or "falsy" in str(prog.get("task")) else ValueError("task failed")
     state["ret"], state["exc"] = ret_obj, exc_obj
 
     def on_quiescent(s):
@@ -401,6 +404,8 @@ MICRO = [
     {"task": "ret", "threads": [[("cb", "same"), ("result", None), ("cb", "same"), ("cb", "same")]], "exec_first": True},
     {"task": "raise", "threads": [[("cb", "same"), ("cb", "same")]], "exec_first": False},
     {"task": "ret", "threads": [[("cb", "method")]], "exec_first": False},
+    {"task": "raise", "falsy_exc": True, "threads": [[("result", None), ("result", 0), ("cb", "ok"), ("result", -1)]], "exec_first": True},
+    {"task": "gated-raise", "threads": [[("result", 0), ("result", 0.0), ("result", None), ("result", 0)]], "exec_first": True},
     {"task": "ret-future-failed", "threads": [[("cb", "ok"), ("result", None), ("done",)]], "exec_first": True},
     {"task": "ret-future-pending", "threads": [[("result", 1.0), ("cb", "ok")]], "exec_first": True},
     {"task": "gated-raise", "threads": [[("cb", "callable-object"), ("cb", "method"), ("result", None)]], "exec_first": True},
@@ -459,7 +464,7 @@ def dfs_oracle(case):
 ops = st.one_of(
     st.tuples(st.just("cb"), st.sampled_from(["ok", "ok", "raise", "arity", "same", "same", "flex-typeerror", "flex-ok", "method", "method", "callable-object", "partial"])),
     st.just(("done",)),
-    st.tuples(st.just("result"), st.sampled_from([None, 0.5, 2.0])),
+    st.tuples(st.just("result"), st.sampled_from([None, 0.5, 2.0, 0, 0.0, -1])),
 )
 
 
@@ -469,6 +474,8 @@ def random_cases(draw):
         "task": draw(st.sampled_from(["ret", "ret", "raise", "raise", "gated-ret", "gated-raise", "ret-future-done", "ret-future-failed", "ret-future-pending"])),
         "threads": draw(st.lists(st.lists(ops, min_size=1, max_size=3), min_size=1, max_size=2)),
         "exec_first": draw(st.booleans()),
+        # the task's exception may be an instance whose truth value is False
+        "falsy_exc": draw(st.integers(0, 3)) == 0,
     }
     kind = draw(st.sampled_from(["random", "random", "preempt"]))
     if kind == "random":
@@ -490,7 +497,7 @@ SUBS = [
 
 CLAIM = {
     "technique": "schedule-owning property-based testing: bounded-exhaustive enumeration of thread schedules plus Hypothesis-generated programs and schedules, history oracle",
-    "text": "The real FutureResult code runs on real threads serialised by a deterministic scheduler; all schedules with <= k non-default choices of 20 micro-programs are enumerated (sync and line granularity) and thousands of generated (program, schedule) pairs are run; a history oracle checks done/result/callback protocol. Exhaustive only within the preemption bound on the listed programs.",
+    "text": "The real FutureResult code runs on real threads serialised by a deterministic scheduler; all schedules with <= k non-default choices of 22 micro-programs are enumerated (sync and line granularity) and thousands of generated (program, schedule) pairs are run; a history oracle checks done/result/callback protocol. Exhaustive only within the preemption bound on the listed programs.",
     "note": "Trusts vlib/detsched.py (simulated Lock/RLock/Condition/Event/Thread with FIFO wake-up and a virtual clock) to produce only legal CPython executions; granularity is synchronisation operations and source lines, not bytecodes.",
     "design_ref": "DESIGN.md section 4, C16; section 2.2 E2",
     "engine": "E2",
